@@ -12,3 +12,6 @@ import RustCcModel.Properties.C12
 #print axioms RustCc.C12.not_tracing_unless_collector_on_top
 #print axioms RustCc.C12.tracing_when_pass_on_top
 #print axioms RustCc.C12.collections_never_nest
+#print axioms RustCc.C12.flag_up_inside_callbacks
+#print axioms RustCc.C12.unwrap_err_inside_callbacks
+#print axioms RustCc.C12.finalize_again_panics_inside_callbacks
